@@ -52,6 +52,12 @@ SITES = {
     'def': dict(default='cd', acc=KINDS, post=[], maybe_post=[], abs_ok=True, dest=False),
 }
 ASSERT_ONLY = ('exists', 'contents', 'dir-contents')
+X_SITE = {'ts': 'contents_of', 'pg': 'exe', 'fs': 'dir_contents_of'}  # typed symbols that hold a PATH
+X_TYPE = {'ts': 'text-source', 'pg': 'program', 'fs': 'files-source'}
+# Reading of the property for an absolute FILE-NAME *without* RELATIVITY given to a destination argument (directly or
+# as the value of a string symbol): True = it must be rejected like a path symbol with an absolute value (acceptance
+# is the defect KF-C12-2); False = it is valid usage and names that absolute path.
+ABS_DEST_REJECTED = True
 DEST_SITES = ('file', 'dir', 'copy_dst')
 
 # where `help` shows each table: site -> list of (help argv, name of the argument the table belongs to)
@@ -252,6 +258,7 @@ class State:
         self.paths = {n: PV(k) for n, k in BUILTINS.items()}
         self.strs = {}
         self.str_pathref = set()  # string symbols whose value contains a reference to a path symbol
+        self.xsyms = {}  # text-source / program / files-source symbols that hold a PATH: name -> (type, expr, phase, cwd)
         self.tree = fixture()
         self.maybe = False
         self.irregular = []
@@ -366,7 +373,7 @@ class State:
             return self._join(pv, name.lstrip('/'), info)
         if rel is None:
             if is_abs(name):
-                if conf['abs_ok']:
+                if conf['abs_ok'] or not ABS_DEST_REJECTED:
                     return PV('abs', '', name)
                 info.irregular = 'abs-dest'
                 if self.mode == 'bug':
@@ -572,6 +579,37 @@ class State:
             if not base:
                 raise Broken('copy source without base name')
             self.copy_tree(src, dst)
+        elif k == 'defx':
+            # def text-source|program|files-source X = ... PATH ...: "a symbol definition is evaluated each time it is
+            # referenced" (help concept "current directory") - the PATH is parsed (accepted or not) where it is written
+            site = X_SITE[op['type']]
+            self.eval(op['expr'], site, ph, info)
+            self.uses.pop()
+            self.xsyms[op['name']] = (op['type'], op['expr'], ph, self.cwd)
+        elif k == 'usex':
+            if op['name'] not in self.xsyms:
+                raise Broken('undefined symbol ' + op['name'])
+            typ, expr, def_ph, def_cwd = self.xsyms[op['name']]
+            site = X_SITE[typ]
+            pv = self.eval(expr, site, def_ph, info)
+            u = self.uses[-1]
+            u['site'], u['phase'] = site, ph
+            u['typed_symbol'] = True
+            u['cd_moved'] = pv.kind == 'cd' and (def_cwd != self.cwd or (pv.cwd0 is not None and pv.cwd0 != self.cwd))
+            loc = self.locate(pv)
+            kind = self.kind_at(loc)
+            out = ('SB', 'tmp/o/%d' % i)
+            if kind is None:
+                raise Broken('%s names missing %r' % (op['name'], loc))
+            if typ == 'ts':
+                self._need(kind, 'f', loc)
+                self.tree[out] = ['f', self.tree[loc][1]]
+            elif typ == 'pg':
+                self._need(kind, 'f', loc)
+                self.tree[out] = ['f', exe_output(self.tree[loc][1])]
+            else:
+                self._need(kind, 'd', loc)
+                self.copy_tree(loc, out)
         elif k == 'read':
             site = op['site']
             pv = self.eval(op['expr'], site, ph, info)
